@@ -26,9 +26,14 @@ def F1_witness():
 
 
 def scripted(sched):
+    norm = lambda e: json.loads(json.dumps(list(e)))     # noqa: events read back from a replay file hold lists
     def ch(en, step):
         if step < len(sched):
-            return en.index(tuple(sched[step])) if tuple(sched[step]) in en else 0
+            want = norm(sched[step])
+            for k, e in enumerate(en):
+                if norm(e) == want:
+                    return k
+            return 0
         return len(en) - 1
     return ch
 
@@ -343,10 +348,26 @@ def replay(ctx, path):
         return 2
     terms = []
     out = {int(k): v for k, v in c['outcome'].items()}
-    run_one(ctx, c['W'], out, scripted([tuple(e) for e in c['schedule']]), terms, 'replay')
-    bad = ctx.model_mismatches(SC.HEADER, [t[0] for t in terms], 'check_case')
+    sched = [tuple(e) for e in c['schedule']]
+    if c.get('live_patch'):
+        patches = [e for e in sched if e[0] == 'Patch']
+
+        def patcher(d):
+            return tuple(patches[d.patches]) if d.patches < len(patches) else None
+        run_patched(ctx, c['W'], out, scripted(sched), terms, 'replay', patcher)
+        bad = ctx.model_mismatches(SC.HEADER + '\nRequire Import V.Sched.Sleep V.Sched.Patch.', [t[0] for t in terms], 'check_pcase')
+    else:
+        sleepy = any(e[0] in ('Sleep', 'Wake') for e in sched)
+        run_one(ctx, c['W'], out, scripted(sched), terms, 'replay', sleepy=sleepy, slow_pm=any(e[0] in ('PMB', 'PME') for e in sched),
+                lockfin='changed_before_lock' in c)
+        if sleepy:
+            bad = ctx.model_mismatches(SC.HEADER + '\nRequire Import V.Sched.Sleep.', [t[0] for t in terms], 'check_scase')
+        else:
+            bad = ctx.model_mismatches(SC.HEADER, [t[0] for t in terms], 'check_case')
+    for f in ctx.disagreements:
+        print('DISAGREEMENT: %s' % f.get('correspondence', ''))
     for f in ctx.failures:
         print('REPRODUCED: %s' % f['what'])
     if bad:
         print('DISAGREEMENT: model and controller differ on this schedule')
-    return 1 if (ctx.failures or bad) else 0
+    return 1 if (ctx.failures or bad or ctx.disagreements) else 0
